@@ -229,7 +229,8 @@ class FileProvider(ContentProvider):
                 raise BlacklistedSpec()
 
         resolved = os.path.realpath(self.path)
-        if not resolved.startswith(os.path.realpath(self.root)):
+        root = os.path.realpath(self.root)
+        if resolved != root and not resolved.startswith(os.path.join(root, "")):
             msg = "Relative path points outside the root: %s -> %s."
             raise Exception(msg % (self.path, resolved))
 
